@@ -80,6 +80,33 @@ def plan_program(seed, n_edits):
     return {"seed": seed, "prog": prog, "call": call, "kept": kept, "histories": hs}
 
 
+def load_pipelines():
+    """Pipelines with dds.load and keeps with run-time arguments in various orders (the random generator has no loads)."""
+    import values as V
+    out = []
+    for order in (("prod", "dbl", "reader"), ("prod", "reader", "dbl"), ("dbl0", "prod", "reader", "dbl")):
+        funcs = [{"name": "prod", "params": [], "annot": None, "salt": "p0", "stmts": [], "reads": ["VAR_P"]},
+                 {"name": "leaf", "params": [{"name": "a", "default": None}], "annot": None, "salt": "l0", "stmts": [], "reads": []},
+                 {"name": "reader", "params": [], "annot": None, "salt": "r0", "stmts": [{"k": "load", "path": "/p"}], "reads": []}]
+        stmts = []
+        for what in order:
+            if what == "prod":
+                stmts.append({"k": "keep", "path": "/p", "callee": ("m0", "prod"), "pos": [], "kw": [], "layout": "single"})
+            elif what == "reader":
+                stmts.append({"k": "keep", "path": "/reader", "callee": ("m0", "reader"), "pos": [], "kw": [], "layout": "single"})
+            elif what == "dbl0":
+                stmts.append({"k": "keep", "path": "/dbl0", "callee": ("m0", "leaf"), "pos": [["param", 0]], "kw": [], "layout": "single"})
+            else:
+                stmts.append({"k": "keep", "path": "/dbl", "callee": ("m0", "leaf"), "pos": [["local", 0] if order[0] == "prod" else ["param", 0]], "kw": [], "layout": "single"})
+        funcs.append({"name": "root", "params": [{"name": "z", "default": V.i_(4)}], "annot": None, "salt": "t0", "stmts": stmts, "reads": []})
+        prog = {"pkg": "vpl2", "ext_helpers": {}, "root": ("m0", "root"), "modules": {"m0": {"vars": {"VAR_P": V.i_(1)}, "funcs": funcs}}}
+        call = {"a": "call", "mod": "m0", "fn": "root", "style": "eval", "pos": [], "kw": []}
+        ev = [("prog", prog), ("act", call), ("act", call), ("act", call), ("restart",), ("act", call)]
+        out.append({"seed": "load-pipeline:" + "-".join(order), "prog": prog, "call": call, "kept": {"prod", "leaf", "reader"},
+                    "histories": [("rerun", None, None, ev)]})
+    return out
+
+
 def run_one_history(ev):
     try:
         return hist.run_history(ev, run_ref=False)
@@ -106,7 +133,8 @@ def judge_program(plan, recs_list):
                     res["checks"] += 1
                     ran = [t for t in r["impl"]["log"] if t in kept]
                     if ran or hist.impl_obs(r)["sigs"] != sig0:
-                        res["bad"].append({"kind": ["", "unchanged", "fresh-process", "entry-style-switch"][i], "ran": ran,
+                        labels = ["", "unchanged", "fresh-process", "entry-style-switch"] if len(recs) <= 4 else ["", "unchanged", "unchanged-again", "fresh-process"]
+                        res["bad"].append({"kind": labels[min(i, 3)], "ran": ran,
                                            "sigs_changed": hist.impl_obs(r)["sigs"] != sig0, "events": ev})
             continue
         res["kinds"][kind] = res["kinds"].get(kind, 0) + 1
@@ -197,7 +225,7 @@ def run(rep, tier, seed, proof_ok):
                 "outside-cone edits, reverts, restarts and style switches; zero-argument data functions that cannot reach the edit keep "
                 "signature and are served; execution logs and signature maps also compared with the Coq model; distinct = distinct "
                 "(program, edit); non-trivial = program has at least one kept-only function")
-    plans = [plan_program(seed * 1000 + i, n_edits) for i in range(n_prog)]
+    plans = [plan_program(seed * 1000 + i, n_edits) for i in range(n_prog)] + load_pipelines()
     flat = [h[3] for pl in plans for h in pl["histories"]]
     with cf.ThreadPoolExecutor(max_workers=C.NPROC) as ex:
         flat_res = list(ex.map(run_one_history, flat))
